@@ -673,9 +673,9 @@ def run(ctx):
     cases += directed(rng)
     tl = tail_loss_case(rng)
     cases.append(tl)
-    for _ in range(ctx.n(40, 400)):
+    for _ in range(ctx.n(40, 320)):
         cases.append(gen_random(rng, big=ctx.thorough()))
-    for _ in range(ctx.n(16, 150)):
+    for _ in range(ctx.n(16, 110)):
         cases.append(gen_soak(rng, big=ctx.thorough()))
     results = []
     kept = []
